@@ -92,59 +92,7 @@ def check(prog, rep, tier):
         rep.ok('R09.a', 'parse_attributes:length-width', file=pa.file, line=ext_if[1].lineno)
 
     # ---------------------------------------------------------------- R09.b
-    for qual in (UPD + '.parse_prefix_list', 'yabgp.message.attribute.nlri.ipv4_unicast.IPv4Unicast.parse'):
-        f = prog.func(qual)
-        found = False
-        for n in ast.walk(f.node):
-            if isinstance(n, ast.AugAssign) and isinstance(n.op, ast.BitAnd):
-                names = [x.id for x in ast.walk(n.value) if isinstance(x, ast.Name)]
-                if not names:
-                    continue
-                found = True
-                var = names[0]
-                bad = None
-                for r in range(1, 8):
-                    try:
-                        m = prog.fold(n.value, f.module, f.cls, {var: r}) & 0xFF
-                    except NotConst:
-                        bad = (r, 'mask expression not foldable')
-                        break
-                    if m != (0xFF << (8 - r)) & 0xFF:
-                        bad = (r, 'mask 0x%02x, expected 0x%02x' % (m, (0xFF << (8 - r)) & 0xFF))
-                        break
-                # the masked element must be the last *received* octet: between the creation of the
-                # list and the mask nothing may grow it (padding comes afterwards)
-                lst = src_of(n.target.value) if isinstance(n.target, ast.Subscript) else None
-                if bad is None and lst is not None:
-                    grows = []
-                    for st2 in ast.walk(f.node):
-                        if getattr(st2, 'lineno', 10 ** 9) >= n.lineno:
-                            continue
-                        if isinstance(st2, ast.Assign) and any(src_of(t) == lst for t in st2.targets) and \
-                                isinstance(st2.value, ast.BinOp) and isinstance(st2.value.op, ast.Add) and \
-                                lst in src_of(st2.value):
-                            grows.append(st2)
-                        if isinstance(st2, ast.AugAssign) and src_of(st2.target) == lst and isinstance(st2.op, ast.Add):
-                            grows.append(st2)
-                        if isinstance(st2, ast.Call) and isinstance(st2.func, ast.Attribute) and \
-                                src_of(st2.func.value) == lst and st2.func.attr in ('append', 'extend', 'insert'):
-                            grows.append(st2)
-                    # only statements inside the same loop body count
-                    loop = [w for w in ast.walk(f.node) if isinstance(w, ast.While)
-                            and any(x is n for x in ast.walk(w))]
-                    grows = [g for g in grows if loop and any(x is g for x in ast.walk(loop[0]))]
-                    if grows:
-                        bad = (0, 'the octet list is padded (%s) before the mask is applied, so the mask hits a '
-                                  'padding octet instead of the last received one' % src_of(grows[0])[:60])
-                key = 'mask:%s' % f.qualname
-                if bad:
-                    rep.bad('R09.b', key, file=f.file, line=n.lineno, func=f.qualname,
-                            found='remainder %d: %s (%s)' % (bad[0], bad[1], src_of(n)), key=key)
-                else:
-                    rep.ok('R09.b', key, file=f.file, line=n.lineno, found=src_of(n))
-        if not found:
-            rep.bad('R09.b', 'mask:%s' % f.qualname, file=f.file, line=f.node.lineno, func=f.qualname,
-                    found='no masking of the trailing bits of the last prefix octet', key='mask:%s' % f.qualname)
+    mask_rule(prog, rep, 'R09.b')
 
     addpath_decoders(prog, rep)
 
@@ -265,6 +213,64 @@ def check(prog, rep, tier):
         rep.bad('R09.d', 'aspath-segment-types', file=f.file, line=f.node.lineno, func=f.qualname,
                 found='segment type check: %s' % (segs,), expected='reject types outside {1,2,3,4}',
                 key='aspath-segment-types')
+
+
+def mask_rule(prog, rep, rule):
+    for qual in (UPD + '.parse_prefix_list', 'yabgp.message.attribute.nlri.ipv4_unicast.IPv4Unicast.parse'):
+        f = prog.func(qual)
+        found = False
+        for n in ast.walk(f.node):
+            if isinstance(n, ast.AugAssign) and isinstance(n.op, ast.BitAnd):
+                names = [x.id for x in ast.walk(n.value) if isinstance(x, ast.Name)
+                         and x.id not in f.module.assigns and prog.resolve_name(x.id, f.module) is None]
+                if not names:
+                    continue
+                found = True
+                var = names[0]
+                bad = None
+                for r in range(1, 8):
+                    try:
+                        m = prog.fold(n.value, f.module, f.cls, {var: r}) & 0xFF
+                    except NotConst:
+                        bad = (r, 'mask expression not foldable')
+                        break
+                    if m != (0xFF << (8 - r)) & 0xFF:
+                        bad = (r, 'mask 0x%02x, expected 0x%02x' % (m, (0xFF << (8 - r)) & 0xFF))
+                        break
+                # the masked element must be the last *received* octet: between the creation of the
+                # list and the mask nothing may grow it (padding comes afterwards)
+                lst = src_of(n.target.value) if isinstance(n.target, ast.Subscript) else None
+                if bad is None and lst is not None:
+                    grows = []
+                    for st2 in ast.walk(f.node):
+                        if getattr(st2, 'lineno', 10 ** 9) >= n.lineno:
+                            continue
+                        if isinstance(st2, ast.Assign) and any(src_of(t) == lst for t in st2.targets) and \
+                                isinstance(st2.value, ast.BinOp) and isinstance(st2.value.op, ast.Add) and \
+                                lst in src_of(st2.value):
+                            grows.append(st2)
+                        if isinstance(st2, ast.AugAssign) and src_of(st2.target) == lst and isinstance(st2.op, ast.Add):
+                            grows.append(st2)
+                        if isinstance(st2, ast.Call) and isinstance(st2.func, ast.Attribute) and \
+                                src_of(st2.func.value) == lst and st2.func.attr in ('append', 'extend', 'insert'):
+                            grows.append(st2)
+                    # only statements inside the same loop body count
+                    loop = [w for w in ast.walk(f.node) if isinstance(w, ast.While)
+                            and any(x is n for x in ast.walk(w))]
+                    grows = [g for g in grows if loop and any(x is g for x in ast.walk(loop[0]))]
+                    if grows:
+                        bad = (0, 'the octet list is padded (%s) before the mask is applied, so the mask hits a '
+                                  'padding octet instead of the last received one' % src_of(grows[0])[:60])
+                key = 'mask:%s' % f.qualname
+                if bad:
+                    rep.bad(rule, key, file=f.file, line=n.lineno, func=f.qualname,
+                            found='remainder %d: %s (%s)' % (bad[0], bad[1], src_of(n)), key=key)
+                else:
+                    rep.ok(rule, key, file=f.file, line=n.lineno, found=src_of(n))
+        if not found:
+            rep.bad(rule, 'mask:%s' % f.qualname, file=f.file, line=f.node.lineno, func=f.qualname,
+                    found='no masking of the trailing bits of the last prefix octet', key='mask:%s' % f.qualname)
+
 
 
 ADDPATH_DECODERS = [
